@@ -106,7 +106,20 @@ Inductive sop :=
   | SNode                              (* _next_node_id() *)
   | SSetClient (v : Z)                 (* _set_client_id(v) *)
   | SSetOpts (o : opts)                (* the user assigns options; allocators are rebuilt only by the next _set_client_id *)
-  | SLogin (id : Z) (m : option Z).    (* ServerStatusWatcher._handle_login_done(id, max_logins): the reply to /notify *)
+  | SLogin (id : Z) (m : option Z)     (* ServerStatusWatcher._handle_login_done(id, max_logins) *)
+  | SNotifyDone (active : bool) (reply : list Z)
+      (* the OSC reply ['/done', '/notify', *reply] reaching the 'done' responder of _send_notify_request;
+         active = the watcher is booting or registering (otherwise the reply is not a login) *)
+  | SNotifyFail.                       (* ['/fail', '/notify', text, ...]: registration failed, nothing is rebuilt *)
+
+(* done(msg): new_client_id = msg[2] if len(msg) > 2 else None; new_max_logins = msg[3] if len(msg) > 3 else None
+   (supernova sends no count; an unregistration reply carries no id); reply = msg[2:] *)
+Definition parse_notify_reply (reply : list Z) : option (Z * option Z) :=
+  match reply with
+  | [] => None
+  | [id] => Some (id, None)
+  | id :: m :: _ => Some (id, Some m)
+  end.
 
 (* _handle_login_done: first the reported login count, then the granted client id *)
 Definition login_done (gl : bool) (s : srv) (id : Z) (m : option Z) : sres srv :=
@@ -134,6 +147,14 @@ Definition sstep (gl : bool) (s : srv) (x : sop) : sres (srv * option Z) :=
   | SSetClient v => match set_client_id gl s v with SOk s' => SOk (s', None) | SRaise e => SRaise e end
   | SSetOpts o => SOk (mkSrv o (cid s) (a_audio s) (a_control s) (a_buffer s) (nodes s) (sw_max s) (inproc s), None)
   | SLogin id m => match login_done gl s id m with SOk s' => SOk (s', None) | SRaise e => SRaise e end
+  | SNotifyDone active reply =>
+      if active then
+        match parse_notify_reply reply with
+        | Some (id, m) => match login_done gl s id m with SOk s' => SOk (s', None) | SRaise e => SRaise e end
+        | None => SOk (s, None)
+        end
+      else SOk (s, None)
+  | SNotifyFail => SOk (s, None)
   end.
 
 Fixpoint srun (gl : bool) (s : srv) (h : list sop) : sres (srv * list (option Z)) :=
